@@ -24,6 +24,7 @@ from irispie.red_vars._variants import Variant
 from .common import Ctx, rat_of_float, VERIF
 
 DRIVERS = ["C18"]
+EXTRA_PROPS = ["QMatBridge"]   # refinement bridge: the executable QMat model satisfies the hypotheses of the matrix-level theorems
 LEVEL = "proof"
 MANIFEST = {
     "category": "proof",
